@@ -39,6 +39,14 @@
 //!                                                 "a","b","ab" / the empty name) indexed, transposed and
 //!                                                 reordered by `order`: the answer must not depend on
 //!                                                 which by-name call (of colliding names) came before
+//!   @ alloc <tape|matrix|tensor|records> <seed>   "allocation history": the SAME logical object built along
+//!                                                 several routes (exact capacity; caller Vec with spare
+//!                                                 capacity; after a larger content was cleared / removed /
+//!                                                 truncated), the same operations on each — every Matrix
+//!                                                 resizing op at every index, derivatives + conversions +
+//!                                                 lengths, reshape / conversions, record container ops —
+//!                                                 all routes must answer identically:
+//!                                                 `routes=<n> bits=<first> again=<first differing or same>`
 //!   @ naneq <seed>                                equality of f64 containers holding a NaN: `x == x`,
 //!                                                 `x == x.clone()`, `&x == &x`, view / tensor / matrix
 //!                                                 forms — every comparison must be `false`, whether the
@@ -617,6 +625,277 @@ fn byname(names: &[&'static str], order: &[&'static str], seed: u64) -> String {
     })
 }
 
+// ---------------------------------------------------------------------------------------------
+// allocation history: spare capacity of the backing Vecs must never show
+// ---------------------------------------------------------------------------------------------
+
+fn routes_answer(all: Vec<String>) -> String {
+    let digests: Vec<String> = all.iter().map(|s| format!("{:016x}/{}", fnv(s), s.len())).collect();
+    format!("routes={} {}", all.len(), again_of(&digests))
+}
+
+fn spare_vec(data: &[f64], extra: usize) -> Vec<f64> {
+    let mut v = Vec::with_capacity(data.len() + extra);
+    v.extend_from_slice(data);
+    v
+}
+
+/// the derivatives of one small expression on a list with the given history
+fn tape_probe(list: &WengertList<f64>, a: f64, b: f64) -> String {
+    let x = Record::variable(a, list);
+    let y = Record::variable(b, list);
+    let z = &x * &y + (&x).sin();
+    let d = z.derivatives();
+    let (dx, dy) = (d[&x], d[&y]);
+    let v: Vec<f64> = d.into();
+    let d2: Vec<f64> = z.try_derivatives().map(Vec::from).unwrap_or_default();
+    // positions relative to the first record, so that a longer earlier (cleared) tape cannot show
+    format!(
+        "z={} dx={} dy={} len={} vec={} again={} rel={},{}",
+        hex(z.number), hex(dx), hex(dy), v.len(), hexes(v.into_iter()), hexes(d2.into_iter()),
+        y.index - x.index, z.index - x.index
+    )
+}
+
+fn alloc_tape(rng: &mut Rng) -> String {
+    let (a, b) = (value(rng).abs() + 0.5, value(rng));
+    let mut all = vec![];
+    // fresh list
+    all.push(tape_probe(&WengertList::new(), a, b));
+    // after a larger computation was recorded and cleared
+    for big in [5usize, 19, 70] {
+        let list = WengertList::new();
+        {
+            let mut acc = Record::variable(1.25, &list);
+            for _ in 0..big {
+                acc = &acc * &acc + &acc;
+            }
+            let _ = acc.derivatives();
+        }
+        list.clear();
+        all.push(tape_probe(&list, a, b));
+    }
+    // after a smaller one, cleared twice
+    let list = WengertList::new();
+    let _ = Record::variable(2.0, &list);
+    list.clear();
+    list.clear();
+    all.push(tape_probe(&list, a, b));
+    // a clone of a cleared list
+    let list = WengertList::new();
+    for _ in 0..9 {
+        let _ = Record::variable(2.0, &list);
+    }
+    list.clear();
+    all.push(tape_probe(&list.clone(), a, b));
+    routes_answer(all)
+}
+
+/// every resizing / in-place operation at every index, on matrices built by `make`
+fn matrix_probe(make: &dyn Fn() -> Matrix<f64>) -> String {
+    let (rows, cols) = make().size();
+    let mut out = vec![];
+    let show = |m: &Matrix<f64>| format!("{}x{}:{}", m.rows(), m.columns(), hexes(m.row_major_iter()));
+    for i in 0..=rows {
+        let mut m = make();
+        m.insert_row(i, 9.5);
+        out.push(show(&m));
+        let mut m = make();
+        m.insert_row_with(i, (0..cols).map(|j| 100.0 + j as f64));
+        out.push(show(&m));
+        // twice in a row: the first insertion may leave or use up spare capacity
+        m.insert_row(0, -1.0);
+        m.insert_row_with(m.rows(), (0..cols).map(|j| 200.0 + j as f64));
+        out.push(show(&m));
+    }
+    for j in 0..=cols {
+        let mut m = make();
+        m.insert_column(j, 7.5);
+        out.push(show(&m));
+        let mut m = make();
+        m.insert_column_with(j, (0..rows).map(|i| 300.0 + i as f64));
+        m.insert_row(1.min(m.rows()), 4.0);
+        out.push(show(&m));
+    }
+    for i in 0..rows {
+        if rows > 1 {
+            let mut m = make();
+            m.remove_row(i);
+            m.insert_row(0, 6.0);
+            out.push(show(&m));
+        }
+    }
+    for j in 0..cols {
+        if cols > 1 {
+            let mut m = make();
+            m.remove_column(j);
+            m.insert_row(m.rows(), 5.0);
+            m.insert_column(0, 3.0);
+            out.push(show(&m));
+        }
+    }
+    let mut m = make();
+    m.transpose_mut();
+    m.insert_row(1, 2.0);
+    out.push(show(&m));
+    let m = make();
+    out.push(show(&m.transpose()));
+    out.push(format!("{}", m));
+    out.push(format!("{:?}", m == make()));
+    out.join(";")
+}
+
+fn alloc_matrix(rng: &mut Rng) -> String {
+    let (rows, cols) = (rng.range(1, 3), rng.range(1, 3));
+    let data = values(rng, rows * cols);
+    let extra_row = values(rng, cols);
+    let extra_col = values(rng, rows);
+    let mut all = vec![];
+    all.push(matrix_probe(&|| Matrix::from_flat_row_major((rows, cols), data.clone())));
+    for extra in [1usize, cols, 2 * cols + 1, 64] {
+        all.push(matrix_probe(&|| Matrix::from_flat_row_major((rows, cols), spare_vec(&data, extra))));
+    }
+    // a larger matrix cut down: a row, a column, a retain_mut, several rows
+    all.push(matrix_probe(&|| {
+        let mut d = data.clone();
+        d.extend_from_slice(&extra_row);
+        let mut m = Matrix::from_flat_row_major((rows + 1, cols), d);
+        m.remove_row(rows);
+        m
+    }));
+    all.push(matrix_probe(&|| {
+        let mut d = vec![];
+        for r in 0..rows {
+            d.extend_from_slice(&data[r * cols..(r + 1) * cols]);
+            d.push(extra_col[r]);
+        }
+        let mut m = Matrix::from_flat_row_major((rows, cols + 1), d);
+        m.remove_column(cols);
+        m
+    }));
+    all.push(matrix_probe(&|| {
+        let mut d = data.clone();
+        for _ in 0..3 {
+            d.extend_from_slice(&extra_row);
+        }
+        let mut m = Matrix::from_flat_row_major((rows + 3, cols), d);
+        m.retain_mut(easy_ml::matrices::slices::Slice2D::new()
+            .rows(easy_ml::matrices::slices::Slice::Range(0..rows))
+            .columns(easy_ml::matrices::slices::Slice::All()));
+        m
+    }));
+    all.push(matrix_probe(&|| {
+        let mut m = Matrix::from_flat_row_major((rows, cols), data.clone());
+        m.insert_row_with(0, extra_row.iter().cloned());
+        m.remove_row(0);
+        m
+    }));
+    // through a tensor that carries a Vec with spare capacity
+    all.push(matrix_probe(&|| Tensor::from([("r", rows), ("c", cols)], spare_vec(&data, cols + 3)).into_matrix()));
+    if rows == 1 {
+        all.push(matrix_probe(&|| Matrix::row(spare_vec(&data, cols))));
+    }
+    if cols == 1 {
+        all.push(matrix_probe(&|| Matrix::column(spare_vec(&data, 5))));
+    }
+    routes_answer(all)
+}
+
+fn tensor_probe(make: &dyn Fn() -> Tensor<f64, 2>) -> String {
+    let t = make();
+    let [(_, r), (_, c)] = t.shape();
+    let mut out = vec![show_tensor_bits(&t), format!("{}", t), format!("{:?}", t == make())];
+    let mut u = make();
+    u.reshape_mut([("x", c), ("y", r)]);
+    out.push(show_tensor_bits(&u));
+    out.push(show_tensor_bits(&make().reshape_owned([("flat", r * c)])));
+    let mut u = make();
+    u.transpose_mut(["c", "r"]);
+    out.push(show_tensor_bits(&u));
+    out.push(show_tensor_bits(&make().transpose(["c", "r"])));
+    let mut m = make().into_matrix();
+    m.insert_row(0, 8.5);
+    m.insert_row_with(m.rows(), (0..c).map(|j| j as f64));
+    out.push(show_matrix_bits(&m));
+    let back: Tensor<f64, 2> = m.into_tensor("r", "c").unwrap();
+    out.push(show_tensor_bits(&back));
+    out.push(hexes(make().iter_owned()));
+    out.join(";")
+}
+
+fn alloc_tensor(rng: &mut Rng) -> String {
+    let (r, c) = (rng.range(1, 3), rng.range(1, 4));
+    let data = values(rng, r * c);
+    let mut all = vec![];
+    all.push(tensor_probe(&|| Tensor::from([("r", r), ("c", c)], data.clone())));
+    for extra in [1usize, c, 3 * c + 2] {
+        all.push(tensor_probe(&|| Tensor::from([("r", r), ("c", c)], spare_vec(&data, extra))));
+    }
+    all.push(tensor_probe(&|| Tensor::from([("q", r * c)], spare_vec(&data, 7)).reshape_owned([("r", r), ("c", c)])));
+    all.push(tensor_probe(&|| {
+        let mut m = Matrix::from_flat_row_major((r, c), data.clone());
+        m.insert_row(0, 0.0);
+        m.remove_row(0);
+        m.into_tensor("r", "c").unwrap()
+    }));
+    all.push(tensor_probe(&|| {
+        let mut t = Tensor::from([("c", c), ("r", r)], Tensor::from([("r", r), ("c", c)], data.clone()).transpose(["c", "r"]).iter().collect());
+        t.reorder_mut(["r", "c"]);
+        t
+    }));
+    routes_answer(all)
+}
+
+fn records_probe(list: &WengertList<f64>, data: &[f64], rows: usize, cols: usize) -> String {
+    let x = RecordMatrix::variables(list, Matrix::from_flat_row_major((rows, cols), data.to_vec()));
+    let y = x.unary(|v| v.sin(), |v| v.cos());
+    let first = y.get_as_record(0, 0);
+    let v: Vec<f64> = first.derivatives().into();
+    let t = RecordTensor::variables(list, Tensor::from([("a", rows * cols)], data.to_vec()));
+    let u = t.unary(|v| v * v, |v| 2.0 * v);
+    let d = u.derivatives_for([0]).map(Vec::from).unwrap_or_default();
+    let base = x.get_as_record(0, 0).index;
+    format!(
+        "y={} dlen={} d={} tlen={} td={} rel={}",
+        hexes(y.view().row_major_iter().map(|p| p.0)),
+        v.len() - base,
+        hexes(v.into_iter().skip(base)),
+        d.len() - base,
+        hexes(d.into_iter().skip(base)),
+        first.index - base
+    )
+}
+
+fn alloc_records(rng: &mut Rng) -> String {
+    let (rows, cols) = (rng.range(1, 2), rng.range(1, 3));
+    let data = values(rng, rows * cols);
+    let mut all = vec![];
+    all.push(records_probe(&WengertList::new(), &data, rows, cols));
+    for big in [3usize, 40] {
+        let list = WengertList::new();
+        {
+            let mut acc = Record::variable(1.5, &list);
+            for _ in 0..big {
+                acc = &acc + &acc;
+            }
+        }
+        list.clear();
+        all.push(records_probe(&list, &data, rows, cols));
+    }
+    routes_answer(all)
+}
+
+fn alloc(what: &str, seed: u64) -> String {
+    let mut rng = Rng::new(seed);
+    match what {
+        "tape" => alloc_tape(&mut rng),
+        "matrix" => alloc_matrix(&mut rng),
+        "tensor" => alloc_tensor(&mut rng),
+        "records" => alloc_records(&mut rng),
+        _ => "bad-op".into(),
+    }
+}
+
 fn naneq(seed: u64) -> String {
     let mut rng = Rng::new(seed);
     let mut data = values(&mut rng, 6);
@@ -778,6 +1057,7 @@ impl Runner {
             "qr" => qr(num(2), num(3), num(4) as u64),
             "crosslist" => crosslist(num(2)),
             "byname" => byname(&parse_names(toks[2]), &parse_names(toks[3]), num(4) as u64),
+            "alloc" => alloc(toks[2], num(3) as u64),
             "naneq" => naneq(num(2) as u64),
             "messages" => messages(num(2) as u64),
             "names" => names(toks[2], num(3) as u64),
@@ -876,6 +1156,13 @@ pub fn gen(g: &mut Gen) {
                 g.count("byname");
                 g.op(format!("@ byname {} {} {}", set.join(","), o.join(","), seed));
             }
+        }
+    }
+    for what in ["tape", "matrix", "tensor", "records"] {
+        for _ in 0..reps * 2 {
+            let seed = g.rng.next() % 1_000_000;
+            g.count(&format!("alloc.{}", what));
+            g.op(format!("@ alloc {} {}", what, seed));
         }
     }
     for _ in 0..reps {
